@@ -1,6 +1,7 @@
 (* C15 — The serialization envelope round-trips and detects corruption.
    Only statements, each closed by [exact] of a lemma proved in Proofs/, and Print Assumptions. *)
-From DV Require Import Base.Prelude Base.Int Model.CRC Model.Envelope Gen.Consts Proofs.CRC Proofs.Envelope.
+From DV Require Import Base.Prelude Base.Int Model.CRC Model.Envelope Gen.Consts Proofs.CRC Proofs.Envelope
+  Proofs.CRCBurst Proofs.EnvelopeBurst.
 Local Open Scope N_scope.
 
 (* Any byte string (below the 4 GiB the LZ4 size prefix can express), any lossless format,
@@ -29,6 +30,70 @@ Theorem C15_payload_corruption_detected : forall (C : codecs) f l1 b b' l2 u,
   deserialize C (f :: le_enc 4 (crc32 (l1 ++ b :: l2)) ++ l1 ++ b' :: l2) u = Err.
 Proof. intros C. exact (corrupt_payload_byte_detected C true). Qed.
 Print Assumptions C15_payload_corruption_detected.
+
+(* Round 4.  With a CRC32, a stored value whose payload was altered in ANY way confined to at most
+   4 consecutive bytes (m replaced by any other m' of the same length <= 4: every burst of up to
+   32 bits at byte alignment, anywhere in a payload of any length, any prefix l1 and suffix l2)
+   is an error, never data. *)
+Theorem C15_burst_corruption_detected : forall (C : codecs) f l1 m m' l2 u,
+  dec_cks f = n_CRC32 -> bytes_ok (l1 ++ m ++ l2) -> bytes_ok m' ->
+  length m' = length m -> (length m <= 4)%nat -> m <> m' ->
+  deserialize C (f :: le_enc 4 (crc32 (l1 ++ m ++ l2)) ++ l1 ++ m' ++ l2) u = Err.
+Proof. intros C. exact (corrupt_payload_burst4_detected C true). Qed.
+Print Assumptions C15_burst_corruption_detected.
+
+(* The same at arbitrary BIT alignment: the alteration is confined to 32 consecutive bits that
+   start at bit j of one byte (bits below j of the first byte a are untouched, up to three whole
+   bytes follow, and only bits below j of the last byte z are touched) - a window spanning 5 bytes. *)
+Theorem C15_burst32_corruption_detected : forall (C : codecs) f j l1 a mid z a' mid' z' l2 u,
+  dec_cks f = n_CRC32 -> (j <= 8)%nat ->
+  bytes_ok (l1 ++ (a :: mid ++ [z]) ++ l2) -> bytes_ok (a' :: mid' ++ [z']) ->
+  length mid' = length mid -> (length mid <= 3)%nat ->
+  N.lxor a a' mod 2 ^ N.of_nat j = 0 -> N.lxor z z' < 2 ^ N.of_nat j ->
+  a :: mid ++ [z] <> a' :: mid' ++ [z'] ->
+  deserialize C (f :: le_enc 4 (crc32 (l1 ++ (a :: mid ++ [z]) ++ l2))
+                   ++ l1 ++ (a' :: mid' ++ [z']) ++ l2) u = Err.
+Proof. intros C. exact (corrupt_payload_burst32_detected C true). Qed.
+Print Assumptions C15_burst32_corruption_detected.
+
+(* The underlying facts about the CRC-32 model itself (what the driver compares with
+   hash/crc32.ChecksumIEEE): the two checksums differ. *)
+Theorem C15_crc32_burst_changes_checksum : forall l1 m m' l2,
+  bytes_ok m -> bytes_ok m' -> length m' = length m -> (length m <= 4)%nat -> m <> m' ->
+  crc32 (l1 ++ m ++ l2) <> crc32 (l1 ++ m' ++ l2).
+Proof. exact crc32_burst4. Qed.
+Print Assumptions C15_crc32_burst_changes_checksum.
+
+Theorem C15_crc32_burst32_changes_checksum : forall j l1 a mid z a' mid' z' l2,
+  (j <= 8)%nat -> bytes_ok (a :: mid ++ [z]) -> bytes_ok (a' :: mid' ++ [z']) ->
+  length mid' = length mid -> (length mid <= 3)%nat ->
+  N.lxor a a' mod 2 ^ N.of_nat j = 0 -> N.lxor z z' < 2 ^ N.of_nat j ->
+  a :: mid ++ [z] <> a' :: mid' ++ [z'] ->
+  crc32 (l1 ++ (a :: mid ++ [z]) ++ l2) <> crc32 (l1 ++ (a' :: mid' ++ [z']) ++ l2).
+Proof. exact crc32_burst32. Qed.
+Print Assumptions C15_crc32_burst32_changes_checksum.
+
+(* Tightness: 32 bits is the limit.  Xor-ing the 33-bit generator polynomial (bytes 80 20 83 B8 ED)
+   into any five consecutive bytes of any string leaves crc32 unchanged, so such an alteration of a
+   stored payload is NOT detected (C15_burst33_concrete below; the driver checks that the Go
+   library and DeserializeData agree with the model on this control too). *)
+Theorem C15_burst33_undetected : forall l1 a b c d e l2,
+  crc32 (l1 ++ [N.lxor a 128; N.lxor b 32; N.lxor c 131; N.lxor d 184; N.lxor e 237] ++ l2)
+  = crc32 (l1 ++ [a; b; c; d; e] ++ l2).
+Proof. exact crc32_burst33_undetected. Qed.
+Print Assumptions C15_burst33_undetected.
+
+(* Refuted strengthening: "every burst of at most 32 bits anywhere in the STORED VALUE is an error" is
+   false - the burst theorems above are about the payload for a reason.  The checksum precedes the
+   payload; altering stored bytes 2..5 (three checksum bytes and the first payload byte, 4 adjacent
+   bytes) of the value for payload 01 02 03 04 05 yields a value that deserialises to other data.
+   Reproduced on the Go code by the driver (corpus case "straddle"). *)
+Theorem C15_stored_value_burst_refuted : forall (C : codecs) u,
+  le_enc 4 (crc32 [1;2;3;4;5]) = [244;153;11;71] /\
+  deserialize C [8; 244; 153;11;71;1; 2;3;4;5] u = Ok ([1;2;3;4;5], 0) /\
+  deserialize C [8; 244; 98;45;36;150; 2;3;4;5] u = Ok ([150;2;3;4;5], 0).
+Proof. intros C. exact (straddling_burst_undetected C true). Qed.
+Print Assumptions C15_stored_value_burst_refuted.
 
 Theorem C15_checksum_corruption_detected : forall (C : codecs) f k p u,
   dec_cks f = n_CRC32 -> bytes_ok p -> bytes_ok k -> length k = 4%nat ->
@@ -71,3 +136,33 @@ Example C15_concrete :
   /\ deserialize id_codec [136; 236; 156; 121; 6; 3;0;0;0; 1;2;3] true = Ok ([1;2;3], n_LZ4)
   /\ deserialize id_codec [136; 236; 156; 121; 6; 3;0;0;0; 1;2;7] true = Err.
 Proof. vm_compute. repeat split. Qed.
+
+(* Non-vacuity of the burst theorems: the hypotheses are met by concrete stored values
+   (payload 1..8 under CRC32, uncompressed; a 4-byte burst = xor with the polynomial bytes
+   0xED 0xB8 0x83 0x20, and a 32-bit burst starting at bit 5 of byte 2). *)
+Example C15_burst_concrete :
+  let p := [1;2;3;4;5;6;7;8] in
+  let s := 8 :: le_enc 4 (crc32 p) ++ p in
+  deserialize id_codec s true = Ok (p, n_Uncompressed)
+  /\ deserialize id_codec (8 :: le_enc 4 (crc32 p) ++ [1;2] ++ [238;188;134;37] ++ [7;8]) true = Err
+  /\ deserialize id_codec (8 :: le_enc 4 (crc32 p) ++ [1] ++ (226 :: [252;251;250] ++ [25]) ++ [7;8]) true = Err.
+Proof. vm_compute. repeat split. Qed.
+Example C15_burst_hyps_inhabited :
+  deserialize id_codec (8 :: le_enc 4 (crc32 ([1;2] ++ [3;4;5;6] ++ [7;8]))
+                          ++ [1;2] ++ [238;188;134;37] ++ [7;8]) false = Err.
+Proof.
+  apply C15_burst_corruption_detected; try reflexivity; try discriminate;
+    try (apply bytes_okb_ok; reflexivity).
+Qed.
+Example C15_burst32_hyps_inhabited :
+  deserialize id_codec (8 :: le_enc 4 (crc32 ([1] ++ (2 :: [3;4;5] ++ [6]) ++ [7;8]))
+                          ++ [1] ++ (226 :: [252;251;250] ++ [25]) ++ [7;8]) false = Err.
+Proof.
+  apply (C15_burst32_corruption_detected id_codec 8 5); try reflexivity; try discriminate;
+    try (apply bytes_okb_ok; reflexivity); cbn; lia.
+Qed.
+Example C15_burst33_concrete :
+  let p := [1;2;3;4;5;6;7;8] in
+  deserialize id_codec (8 :: le_enc 4 (crc32 p) ++ [1;2] ++ [131;36;134;190;234] ++ [8]) true
+  = Ok ([1;2;131;36;134;190;234;8], n_Uncompressed).
+Proof. vm_compute. reflexivity. Qed.
